@@ -6,7 +6,7 @@ import re
 
 from vmon import gen, instrument, tok
 from vmon import monitors as M
-from vmon.rxgen import sample
+from vmon.rxgen import cover, sample
 
 LEVEL = "exploration"
 EXHAUSTIVE = {"quick": False, "thorough": False}
@@ -26,11 +26,11 @@ ASSUMPTIONS = ["generator preconditions from the statement: pin cites followed b
                "group/edition equality is waived (counted as 'second_pattern_tie') when another extractor with a "
                "different group structure matches exactly the same characters",
                "expected court id = first exact-normalised citation_string in courts-db, else last prefix match"]
-FLOORS = {"quick": {"extractors_total": 6000, "minimal_forms_checked": 5500, "literal_forms_checked": 6000, "examples_checked": 700,
+FLOORS = {"quick": {"extractors_total": 6000, "minimal_forms_checked": 40000, "literal_forms_checked": 6000, "examples_checked": 700,
                     "form:full": 1200, "form:full_parallel": 300, "form:short": 500, "form:supra": 500,
                     "form:id": 500, "form:journal": 500, "form:law": 400, "form:antecedent_full": 500, "form:document": 500, "document_written_citations": 2500, "courts_checked": 300, "courts_exhaustive": 1800,
                     "pin_cites_checked": 1000},
-          "thorough": {"minimal_forms_checked": 45000, "form:full": 80000, "form:full_parallel": 20000,
+          "thorough": {"minimal_forms_checked": 250000, "form:full": 80000, "form:full_parallel": 20000,
                        "form:short": 30000, "form:supra": 30000, "form:id": 30000, "form:journal": 30000,
                        "form:law": 25000, "courts_checked": 20000}}
 K = {"quick": 1, "thorough": 8}
@@ -188,7 +188,18 @@ def run_minimal(spec, rec, rng):
             rec.count("extractor_shape_unknown")
             continue
         got = 0
-        for _ in range(spec["k"] * 12):
+        # members with branch coverage of the pattern body: every alternative (every reporter spelling, every
+        # page shape) at least once, then random ones
+        try:
+            pool = [c for c in cover(body, rng, e.flags, max_samples=6 + 6 * spec["k"], maxrep=2)]
+        except Exception:
+            pool = []
+        for core in pool:
+            if "\n" in core or not rx.fullmatch(core):
+                continue
+            minimal_form(e, core, rng, rec, dict(extractor=idx))
+            got += 1
+        for _ in range(spec["k"] * 12 if got < spec["k"] else 0):
             try:
                 core = sample(body, rng, e.flags, maxrep=2)
             except Exception:
